@@ -121,7 +121,11 @@ def make_user(table, variant):
 
 
 class Ctx:
+    """variant % 4 == 2: ARRAY MODE - every value is an array of shape (2,) with equal components (the program is elementwise), so the
+    ArrayBox operators, unbroadcast and array vector spaces are on the path; the two components of every result must agree"""
+
     def __init__(self, prog, variant, sched=None, name=None):
+        self.array_mode = variant % 4 == 2
         self.user = make_user(prog["utable"], variant) if prog.get("utable") else None
         self.prog = prog
         self.bodies = prog["bodies"]
@@ -180,12 +184,17 @@ def run_body(ctx, b, regs0, link):
             fr.regs.append(prim(ctx, ins["p"], [val(fr, r) for r in ins["a"]]))
         elif op == "diff":
             at, seed = val(fr, ins["at"]), val(fr, ins["seed"])
+            if ctx.array_mode:
+                if not isbox(at) and onp.ndim(at) == 0:
+                    at = onp.ones(2) * at
+                if not isbox(seed) and onp.ndim(seed) == 0:
+                    seed = onp.ones(2) * seed
 
             def f(y, ins=ins, fr=fr):
                 ctx.ids.append(y._trace if isbox(y) else None)
                 return run_body(ctx, ins["b"], [y], fr)
             if ins["mode"] == "vjp":
-                if ctx.variant % 5 == 3 and seed == 1.0 and not ctx.prog.get("warnerr"):
+                if ctx.variant % 5 == 3 and not ctx.array_mode and seed == 1.0 and not ctx.prog.get("warnerr"):
                     r = grad(f)(at)       # same thing through the public convenience wrapper
                 else:
                     vjp, _v = make_vjp(f)(at)
@@ -208,7 +217,9 @@ def run_body(ctx, b, regs0, link):
             fr.regs.append(checkpoint(lambda *ys, ins=ins, fr=fr: run_body(ctx, ins["b"], list(ys), fr))(*args))
         elif op == "if":
             c = val(fr, ins["c"])
-            fr.regs.append(run_body(ctx, ins["bt"] if c > 0 else ins["bf"], [], fr))
+            pos = c > 0
+            pos = bool(pos.all()) if hasattr(pos, "all") else bool(pos)
+            fr.regs.append(run_body(ctx, ins["bt"] if pos else ins["bf"], [], fr))
         elif op == "raise":
             raise UserFault("raise instruction")
         elif op == "ret":
@@ -222,6 +233,11 @@ def to_obs(v):
     if isbox(v):
         return {"k": "error", "type": "BoxLeak", "msg": "a tracer was handed back to the top-level caller: %r" % type(v).__name__}
     try:
+        if onp.ndim(v) == 1:
+            a = onp.asarray(v, dtype=float)
+            if a.shape != (2,) or a[0] != a[1]:
+                return {"k": "error", "type": "ComponentsDiffer", "msg": repr(a)[:100]}
+            v = a[0]
         f = float(v)
     except Exception as ex:     # noqa
         return {"k": "error", "type": "NotScalar", "msg": repr(v)[:100]}
@@ -232,7 +248,8 @@ def to_obs(v):
 
 def run_thread(ctx, th):
     try:
-        v = run_body(ctx, th["main"], [float(th["input"])], None)
+        x0 = float(th["input"])
+        v = run_body(ctx, th["main"], [onp.array([x0, x0]) if ctx.array_mode else x0], None)
         return to_obs(v)
     except (UserFault, UserWarning):
         return {"k": "exc"}
